@@ -78,11 +78,15 @@ impl ModelCheck {
     /// C05 only: one run in ten is a small concurrent program on ring T racing
     /// on a key that is just alive or just expired and not yet collected
     fn ring_t(&self, index: u64) -> bool {
-        (self.id == "C05" || self.id == "C08") && index % 10 == 9
+        (self.id == "C05" || self.id == "C08" || self.id == "C02") && index % 10 == 9
     }
     fn tcheck(&self) -> crate::checks::tchecks::TCheck {
         crate::checks::tchecks::TCheck {
-            kind: if self.id == "C08" { crate::checks::tchecks::TKind::C08 } else { crate::checks::tchecks::TKind::C05 },
+            kind: match self.id {
+                "C08" => crate::checks::tchecks::TKind::C08,
+                "C02" => crate::checks::tchecks::TKind::C02,
+                _ => crate::checks::tchecks::TKind::C05,
+            },
         }
     }
     fn gen_sc(&self, run_seed: u64, tier: Tier) -> (Scenario, &'static str) {
@@ -203,6 +207,9 @@ impl Check for ModelCheck {
             "seeded command histories ({}) over 2-6 keys run through the real codec/handler/store under a simulated clock (ring H) and checked operation by operation against the reference model; a run is non-trivial when at least one command's outcome depended on earlier state (key present, expired or unknown when addressed); distinct = distinct event-log fingerprints (all request bytes, response bytes, clock readings)",
             self.focus
         );
+        if self.id == "C02" {
+            r.push_str("; one run in ten is a ring-T program of 2-3 client threads x 1-3 commands (get / set / cas-set with the current or a stale token / delete with and without CAS) on one key under a seeded schedule: within one lifetime no two acknowledged mutations share a CAS, and a history with CAS-carrying commands must be linearizable (a comparison and its store or removal are one step)");
+        }
         if self.id == "C08" {
             r.push_str("; one run in ten is a ring-T program of 2-3 client threads x 1-3 commands under a seeded schedule: (a) delete with CAS 0 / the current / a stale CAS racing set / cas-set / get on one key (absent, present, two versions, expired and not yet collected): the history must be linearizable, and a failure that disappears when the deletes are left free is reported as the deletes' fault; (b) immediate flushes racing stores over 3-4 keys: a value acknowledged before a flush was invoked is never read after that flush returned, and a store invoked after every flush returned (and not disturbed afterwards) is what the final read returns");
         }
@@ -253,8 +260,12 @@ fn p_c01(rng: &mut Rng, tier: Tier) -> Profile {
         // values up to (almost) the item size limit
         p.max_value = *rng.pick(&[60_000usize, 1_000_000]);
         p.cmds = p.cmds.min(60);
+    } else if tier == Tier::Quick && rng.chance(1, 25) {
+        // a few histories with values beyond 64 KiB in the quick tier as well
+        p.max_value = *rng.pick(&[70_000usize, 140_000]);
+        p.cmds = p.cmds.min(30);
     }
-    p.big_value_pct = 5;
+    p.big_value_pct = if p.max_value >= 60_000 { 30 } else { 5 };
     p.quiet_pct = *rng.pick(&[0u32, 10, 40]);
     p.cas_pct = *rng.pick(&[0u32, 10, 30]);
     p.ttl_pct = *rng.pick(&[0u32, 20, 50]);
